@@ -58,6 +58,11 @@ def programs(t, subset='all'):
         scw.append('S(i64, 1, 16, 8)')
         scw.append('S(i32, 2, 16, 8)')
         scw.append('S(i64, -3, 16, 8)')
+    else:
+        # the unsanitised / ASan units also see a few 64-bit reps (what a release build prints at the type's extremes)
+        for e in (-32, -8, 0):
+            scw.append('S(i64, %d, 2, 8)' % e)
+        scw.append('S(i32, -16, 2, 8)')
         scw.append('S(i32, -1, 3, 8)')
         scw.append('S(i64, -20, 3, 8)')
     # (iii) the layout seam
